@@ -8,6 +8,8 @@ def mix(ctx, n_generic, n_susp, n_over, n_oom, n_par, laws=("const",), bias=None
         s = ctx.seed * 1000003
         for i in range(n_generic):
             yield gen_e.gen_generic(s + i, drv=drv, laws=laws, bias=bias)
+        for i in range(2 if (bias or {}).get("unknown_pool", 0.02) > 0 else 0):
+            yield gen_e.gen_pool_number_as_text(s + 90000 + i, drv)
         for i in range(n_susp):
             yield gen_e.gen_suspension(s + 100000 + i, drv)
         for i in range(n_over):
@@ -20,6 +22,8 @@ def mix(ctx, n_generic, n_susp, n_over, n_oom, n_par, laws=("const",), bias=None
             yield gen_e.gen_cancel(s + 350000 + i, drv)
         for i in range(max(n_oom // 10, 2) if n_oom else 0):
             yield gen_e.gen_oom_fast_clock(s + 370000 + i, drv)
+        for i in range(max(n_oom // 10, 2) if n_oom else 0):
+            yield gen_e.gen_suspend_while_others_grow(s + 380000 + i, drv)
         for i in range(max(n_susp // 4, 1) if n_susp else 0):
             yield gen_e.gen_sibling_suspend(s + 150000 + i, drv)
         for i in range(max(n_susp // 8, 2) if n_susp else 0):
